@@ -25,7 +25,7 @@ import (
 	"verifharness/vlib"
 )
 
-var lcScenarios = []string{"startup-in-subscribe", "startup-at-started-hook", "runtime-added-handlers", "failed-run", "close-before-run"}
+var lcScenarios = []string{"startup-in-subscribe", "startup-at-started-hook", "runtime-added-handlers", "failed-run", "close-before-run", "startup-before-running"}
 
 func lifecycleRound() int { return len(lcScenarios) * len(closerCounts) * 2 * 2 }
 
@@ -319,8 +319,13 @@ func lcStartup(e *vlib.Env, scen string, nclosers int, busy bool, useGC bool, la
 		k = nh - 1 // no further handler to start: Close arrives right at the end of the start-up
 	}
 	inSubscribe := scen == "startup-in-subscribe" || (runtimeAdded && r.Bool())
+	// every handler is started and consuming, but Run has not closed Running() yet (hook between RunHandlers and close(r.running))
+	beforeRunning := scen == "startup-before-running"
+	if beforeRunning {
+		k = nh - 1
+	}
 	spec := fmt.Sprintf("lifecycle=%s closers=%d sub=%s handlers=%d closeArrivesAtHandlerNo=%d park=%s startedHandlerBusy=%v closeTimeout=1h", scen, nclosers, subKindName(useGC), nh, k,
-		map[bool]string{true: "inside Subscribe", false: "router.runhandlers.started"}[inSubscribe], busy)
+		map[bool]string{true: "inside Subscribe", false: map[bool]string{true: "router.run.before_running", false: "router.runhandlers.started"}[beforeRunning]}[inSubscribe], busy)
 	res := vlib.Result{Class: "lifecycle/" + scen + "/" + subKindName(useGC), Spec: spec}
 	wo := vlib.WaitOpts{Watchdog: vlib.WD.Watchdog, NoTimerCheck: []string{wgtFrame}}
 	w := &world{msgs: map[string]*tracked{}}
@@ -363,7 +368,9 @@ func lcStartup(e *vlib.Env, scen string, nclosers int, busy bool, useGC bool, la
 	for n := 0; n < nh; n++ {
 		l.add(n, before, nil)
 	}
-	if !inSubscribe {
+	if beforeRunning {
+		park = ctl.ParkAt("router.run.before_running", func(a, b string) bool { return true }, 0)
+	} else if !inSubscribe {
 		park = ctl.ParkAt("router.runhandlers.started", func(a, b string) bool { return strings.HasPrefix(a, id+"/h") && a != id+"/h100" }, k)
 	}
 	startDone := make(chan struct{})
@@ -431,7 +438,7 @@ func lcStartup(e *vlib.Env, scen string, nclosers int, busy bool, useGC bool, la
 	l.teardown(wo)
 
 	res.Hooks = ctl.Counts()
-	res.NonTrivial = reached && closeBehindStartup
+	res.NonTrivial = reached && (closeBehindStartup || beforeRunning)
 	res.Sig = vlib.Sig(spec, nStarted, heldAtGate, ctl.Fingerprint())
 	res.Count("lifecycle_reached", b2i(reached))
 	res.Count("close_blocked_behind_startup", b2i(closeBehindStartup))
